@@ -513,6 +513,28 @@ class SBV(Sym):
 
     __radd__ = __add__
 
+    # x % 2**k, x // 2**k, x * 2**k on an unsigned value are mask, shift right and shift left (exact); other
+    # divisors leave the bit-vector world (mathematical integers, still exact)
+    def __mod__(self, o):
+        if isinstance(o, int) and not isinstance(o, bool) and o > 0 and o & (o - 1) == 0:
+            return self & (o - 1)
+        return self.to_int() % o
+
+    def __floordiv__(self, o):
+        if isinstance(o, int) and not isinstance(o, bool) and o > 0 and o & (o - 1) == 0:
+            return self >> (o.bit_length() - 1)
+        return self.to_int() // o
+
+    def __mul__(self, o):
+        if isinstance(o, int) and not isinstance(o, bool) and o > 0 and o & (o - 1) == 0:
+            return self << (o.bit_length() - 1)
+        return self.to_int() * o
+
+    __rmul__ = __mul__
+
+    def __sub__(self, o):
+        return self.to_int() - o
+
     def __eq__(self, o):
         if isinstance(o, (SBV, int)) and not isinstance(o, bool):
             o = SBV._lift(o, self.w)
